@@ -492,7 +492,7 @@ fn main() {
         Some("c15") => run_c15(thorough, threads, &ctx),
         Some("c05") => run_c05(thorough, threads, &ctx),
         Some("c16") => run_c16(thorough, threads, &ctx),
-        Some("emit") => emit::emit(thorough, &arg(&args, "--dir").expect("--dir"), arg(&args, "--prop").as_deref(), arg(&args, "--shards").map(|s| s.parse().unwrap()).unwrap_or(8)),
+        Some("emit") => emit::emit(thorough, &arg(&args, "--dir").expect("--dir"), arg(&args, "--prop").as_deref(), arg(&args, "--shards").map(|s| s.parse().unwrap()).unwrap_or(8), arg(&args, "--cfgflags").map(|s| s.parse().unwrap())),
         _ => {
             eprintln!("usage: px c15|c05|c16|emit --tier quick|thorough --out <file>");
             std::process::exit(2);
